@@ -110,6 +110,31 @@ func findValue(f *ast.File, name string) ast.Expr {
 	return nil
 }
 
+// value of `var name = ...` / `name := ...` declared inside function fn
+func findLocalValue(fd *ast.FuncDecl, name string) ast.Expr {
+	var res ast.Expr
+	ast.Inspect(fd.Body, func(n ast.Node) bool {
+		switch x := n.(type) {
+		case *ast.ValueSpec:
+			for i, id := range x.Names {
+				if id.Name == name && i < len(x.Values) && res == nil {
+					res = x.Values[i]
+				}
+			}
+		case *ast.AssignStmt:
+			if x.Tok == token.DEFINE {
+				for i, l := range x.Lhs {
+					if show(l) == name && i < len(x.Rhs) && res == nil {
+						res = x.Rhs[i]
+					}
+				}
+			}
+		}
+		return true
+	})
+	return res
+}
+
 func findFunc(f *ast.File, name string) *ast.FuncDecl {
 	recv := ""
 	if i := strings.Index(name, "."); i >= 0 {
@@ -309,6 +334,12 @@ func emit(g group) (string, []string) {
 			}
 		case "strlist":
 			v := findValue(af, f.Ident)
+			if f.Func != "" {
+				v = nil
+				if fd := findFunc(af, f.Func); fd != nil {
+					v = findLocalValue(fd, f.Ident)
+				}
+			}
 			cl, ok := v.(*ast.CompositeLit)
 			if !ok {
 				fail("not a composite literal")
